@@ -6,9 +6,9 @@ import Pcore.Model.Object
   Mirrors (file → definition):
     types/annotatedmember.go annotatedMember.initHash   → `Attr.decl` (type; `final => true` / `override => true` only when set)
     types/attribute.go       attribute.initHash         → `Attr.decl` (kind unless normal; the value — EXCEPT `undef` of an
-                                                          attribute whose type is syntactically `Optional[…]`, which is
-                                                          left out as the implicit default, also for a CONSTANT: the known
-                                                          finding C17-type-inithash-constant-undef)
+                                                          attribute whose type is syntactically `Optional[…]` that is no
+                                                          CONSTANT, which is left out as the implicit default; before the
+                                                          fix 86875be also for a constant: `Attr.declValueBefore`)
     types/objecttype.go      objectType.initHash        → `typeDef` (attributes divided into `constants` — kind constant and
                                                           declared type = `Generalize(value.PType())` — and the others,
                                                           each group in declaration order; `type_parameters` as declared
@@ -19,8 +19,16 @@ import Pcore.Model.Object
 -/
 namespace Pcore.Object
 
-/-- attribute.initHash: the value entry of the printed attribute -/
+/-- attribute.initHash: the value entry of the printed attribute (after the fix 86875be "the init hash of an Object type
+    left out the value of a constant whose value is undef": a constant has no implicit value, its undef is written too) -/
 def Attr.declValue (a : Attr) : Option Val :=
+  if a.kind == .constant then a.value else
+  match a.value, a.ty with
+  | some .undef, .opt _ => none
+  | v, _ => v
+
+/-- … before that fix: the undef of EVERY attribute of a syntactically Optional type was left out -/
+def Attr.declValueBefore (a : Attr) : Option Val :=
   match a.value, a.ty with
   | some .undef, .opt _ => none
   | v, _ => v
@@ -58,11 +66,18 @@ def typeDef (parent : Option Nat) (l : Level) : Def :=
 /-- the own attributes of the re-created level: `attributes` first, then `constants` -/
 def reorder (as : List Attr) : List Attr := as.filter (fun a => !a.constLike) ++ as.filter Attr.constLike
 
-/-- the one shape `attribute.initHash` does not print back: a constant of an `Optional[…]` type with the value undef -/
+/-- the one shape `attribute.initHash` did not print back before the fix 86875be: a constant of an `Optional[…]` type with
+    the value undef -/
 def Attr.undefConstant (a : Attr) : Bool :=
   a.kind == .constant &&
     (match a.value, a.ty with
      | some .undef, .opt _ => true
      | _, _ => false)
+
+/-- `typeDef` as it was before the fix 86875be (every printed value by `declValueBefore`) -/
+def typeDefBefore (parent : Option Nat) (l : Level) : Def :=
+  { typeDef parent l with
+    attrs := (l.attrs.filter (fun a => !a.constLike)).map
+      (fun a => { a.decl with dflt := a.declValueBefore }) }
 
 end Pcore.Object
